@@ -20,6 +20,7 @@ import os
 import pickle
 import re
 import shutil
+import socket
 import tempfile
 import warnings
 import xml.etree.ElementTree as ET
@@ -38,7 +39,9 @@ RULE = ('every schema of the alphabet (12 generated schemas with 4-6 globals wir
         'build) x every rewrite of each family {all permutations (n<=5|6) or all transpositions+reversal; all 2^n '
         'assignments to 2 include files and 3^n to 3 (n small, linear family above); 8x8 spellings of two '
         'schemaLocations; 8x8 diamond includes (one file reached through two spellings); import orders; '
-        'clear+build, build=False+build, pickle, pickle of an unbuilt schema, copy.copy(maps)+build, deepcopy}; '
+        'clear+build, build=False+build, pickle, pickle of an unbuilt schema, copy.copy(maps)+build, deepcopy; a part '
+        'file reached by file name and/or by a published URL relocated by uri_mapper (9 scenarios x dict|callable x '
+        'main opened by file|published URL)}; '
         'compared with the original arrangement on globals, component summaries and all probe instances. '
         'A case is non-trivial (and a state is counted) when its (schema, version, order of _build_global calls) '
         'is new; distinct_nontrivial = states = distinct build orders')
@@ -54,6 +57,8 @@ ASSUMPTIONS = [
     'corpus schema that does not build there, needs the network or is not UTF-8 is skipped and counted',
     'include files repeat the xs:import and xs:defaultOpenContent children and the root attributes of the main document',
     'a bare schema.copy() shares the global maps with the source; it is explored and reported, not judged',
+    'published URLs (http://example.test/schemas/...) are never fetched: the uri_mapper always relocates them to '
+    'fixture files and socket connections are blocked in the worker',
 ]
 BUDGET_S = {'quick': 900, 'thorough': 3600}
 VERSIONS = {'1.0': XMLSchema10, '1.1': XMLSchema11}
@@ -78,6 +83,20 @@ if getattr(_builders.StagedMap._build_global, '__name__', '') != '_recording_bui
     _builders.StagedMap._build_global = _recording_build_global
 
 LIB_ERRORS = (xmlschema.XMLSchemaException,)
+
+# --- nothing may reach the network: published URLs are always relocated to fixture files ---------------------
+
+NETWORK_ATTEMPTS = []
+
+
+def _no_network(*args, **kwargs):
+    NETWORK_ATTEMPTS.append(repr(args[-1:])[:80])
+    raise OSError('C09: network access attempted')
+
+
+socket.socket.connect = _no_network
+socket.socket.connect_ex = _no_network
+socket.create_connection = _no_network
 
 
 # --- building ---------------------------------------------------------------------------------------------
@@ -441,6 +460,13 @@ def rewrites(sid, doc, family, tier, seed):
                 for p in (list(range(n)), list(reversed(range(n)))):
                     if list(o) != list(range(k)) or p != list(range(n)):
                         out.append(['imports', list(o), p])
+    elif family == 'mapped':
+        # p1 reached by its file name and/or by a published URL that the uri_mapper option relocates to it
+        if n >= 1:
+            for mapper in MAPPERS:
+                for entry in ENTRIES:
+                    for sc in G.MAPPED_SCENARIOS:
+                        out.append(['mapped', mapper, entry, sc])
     elif family == 'stored':
         for arr in ('orig', 'split'):
             if arr == 'split' and n < 1:
@@ -453,7 +479,9 @@ def rewrites(sid, doc, family, tier, seed):
     return out
 
 
-FAMILIES = ('perm', 'split2', 'split3', 'spell', 'diamond', 'imports', 'stored')
+FAMILIES = ('perm', 'split2', 'split3', 'spell', 'diamond', 'imports', 'stored', 'mapped')
+MAPPERS = ('dict', 'callable')
+ENTRIES = ('file', 'published')          # how the main document itself is opened
 
 
 def short(rw):
@@ -463,6 +491,8 @@ def short(rw):
         return 'imports=%s,perm=%s' % (''.join(map(str, rw[1])), 'id' if rw[2] == sorted(rw[2]) else 'rev')
     if rw[0] == 'stored':
         return 'stored=%s@%s' % (rw[1], rw[2])
+    if rw[0] == 'mapped':
+        return 'mapped=%s,%s-mapper,main-opened-by-%s' % (rw[3], rw[1], rw[2])
     _, k, assign, spellings, keep, diamond = rw[:6]
     s = 'split%d=%s' % (k, ''.join(map(str, assign)))
     if any(x != 'rel' for x in spellings):
@@ -529,6 +559,7 @@ class Subject:
         sub = load_subject(sid)
         self.doc, self.aux, self.origin, self.rec = sub['doc'], sub['aux'], sub['origin'], sub['rec']
         self.orders = set()
+        self.plain = {}
         self.calls = 0
         self.built = 0
         d = fx.fresh(self.aux)
@@ -572,11 +603,51 @@ class Subject:
         try:
             if rw[0] == 'stored':
                 return self._stored(rw, d)
+            if rw[0] == 'mapped':
+                return self._mapped(rw, d)
             path = self.fx.write(d, files_for(self.doc, rw, d))
             schema, outcome, message = self._build(path)
             return self._judge(schema, outcome, message)
         finally:
             self.fx.drop(d)
+
+    def _mapped(self, rw, d):
+        _, mapper, entry, scenario = rw
+        path = self.fx.write(d, G.files_mapped(self.doc, scenario, d))
+        table = G.mapping_for(d)
+        if mapper == 'dict':
+            uri_mapper = dict(table)
+        else:
+            def uri_mapper(uri):
+                return table.get(uri, uri)
+        source = path if entry == 'file' else G.published('main.xsd')
+        del NETWORK_ATTEMPTS[:]
+        schema, outcome, message = self._build(source, uri_mapper=uri_mapper)
+        if NETWORK_ATTEMPTS:
+            return 'network-attempt', ('network', 'a published URL covered by the uri_mapper was fetched from the network: %s'
+                                       % NETWORK_ATTEMPTS[:2])
+        # Judged against the SAME include structure written with file names only, so that the family isolates the
+        # effect of the relocated spelling; an include-order effect of the structure itself (judged by the split
+        # families) is counted, not reported a second time.
+        if scenario not in self.plain:
+            d2 = self.fx.fresh(self.aux)
+            try:
+                s2, o2, m2 = self._build(self.fx.write(d2, G.files_mapped(self.doc, scenario, d2, plain=True)))
+                obs2 = observe(s2, self.probes) if s2 is not None else None
+                same = o2 == self.outcome and (obs2 is None or first_difference(self.base, obs2) is None)
+                self.plain[scenario] = (o2, m2, obs2, same)
+            finally:
+                self.fx.drop(d2)
+        o2, m2, obs2, same = self.plain[scenario]
+        if outcome != o2:
+            return 'outcome-differs', ('outcome:%s->%s' % (o2, outcome),
+                                       'the same includes written with file names only: %s%s; with the published URL '
+                                       'relocated by uri_mapper: %s%s' % (o2, m2 and ' (%s)' % m2, outcome,
+                                                                          message and ' (%s)' % message))
+        label, disc = self._judge(schema, outcome, message, base=obs2) if schema is not None else ('both-' + outcome, None)
+        if disc is None and not same:
+            label = 'same-as-file-name-spelling (include structure itself is order sensitive: split families)'
+        return label, disc
 
     def _judge(self, schema, outcome, message, base=None):
         if outcome != self.outcome:
@@ -832,6 +903,8 @@ def bounds(tier, seed):
             'diamond': 'p2 includes p1 under spelling b while main includes p1 under spelling a: 8x8 generated; main '
                        'including p1 twice under two spellings: 7',
             'imports': 'all orders of <= 3 imports x {identity, reversal} of the globals',
+            'mapped': {'scenarios': sorted(G.MAPPED_SCENARIOS), 'mappers': list(MAPPERS), 'main_opened_by': list(ENTRIES),
+                       'network': 'socket guard installed; an attempt is a discrepancy'},
             'stored': ['rebuild', 'rebuild-twice', 'late-build', 'pickle', 'pickle-unbuilt', 'mapscopy', 'deepcopy',
                        'barecopy (explored only)'],
             'corpus_versions': P['corpus_versions'], 'max_probes_per_corpus_schema': MAX_PROBES}
